@@ -252,7 +252,8 @@ impl<'a> CompilerState<'a> {
             if c == '\n' {
                 line_number += 1;
             }
-            char_number += 1;
+            // loc is a byte offset
+            char_number += c.len_utf8();
         }
         let included_in = self.mapped_lines[line_number]
             .2
@@ -277,7 +278,8 @@ impl<'a> CompilerState<'a> {
             if c == '\n' {
                 line_number += 1;
             }
-            char_number += 1;
+            // loc is a byte offset
+            char_number += c.len_utf8();
         }
         let included_in = self.mapped_lines[line_number]
             .2
@@ -302,7 +304,8 @@ impl<'a> CompilerState<'a> {
             if c == '\n' {
                 line_number += 1;
             }
-            char_number += 1;
+            // loc is a byte offset
+            char_number += c.len_utf8();
         }
         let included_in = self.mapped_lines[line_number]
             .2
